@@ -11,9 +11,11 @@ Open Scope Z_scope.
 Section Eof.
 Variable inp : bstr.
 Notation ilen := (Z.of_nat (length inp)).
+Variable base : Z.            (* 0 for lex / lexExpr; the offset in the enclosing file for lexExprAt *)
+Hypothesis Hbase : 0 <= base.
 
-Lemma emit_to_not_done t st l l' : st <> LDone -> emit_to inp ilen t st l = Ok (LDone, l') -> False.
-Proof. intros Hst H. unfold emit_to in H. destruct (emit inp ilen t l); cbn in H; inversion H. congruence. Qed.
+Lemma emit_to_not_done t st l l' : st <> LDone -> emit_to inp ilen base t st l = Ok (LDone, l') -> False.
+Proof. intros Hst H. unfold emit_to in H. destruct (emit inp ilen base t l); cbn in H; inversion H. congruence. Qed.
 
 Lemma next_cases l :
   0 <= l_pos l ->
@@ -26,15 +28,15 @@ Proof.
 Qed.
 
 Theorem block_comment_error_at_end fuel : forall star l l',
-  0 <= l_pos l <= ilen -> block_comment_loop inp ilen fuel star l = Ok (LDone, l') ->
-  l_out l' = err_item ilen e_comment_eof :: l_out l.
+  0 <= l_pos l <= ilen -> block_comment_loop inp ilen base fuel star l = Ok (LDone, l') ->
+  l_out l' = err_item (base + ilen) e_comment_eof :: l_out l.
 Proof.
   induction fuel as [|f IH]; intros star l l' Hp H; [discriminate|].
   cbn [block_comment_loop] in H.
   destruct (next_cases l ltac:(lia)) as (r & l1 & Hn & Ho & Hc). rewrite Hn in H. cbn [bind] in H.
   destruct Hc as [(Hr & Hpos & Hle) | (Hr & Hpos)].
   - subst r. change (eof =? eof) with true in H. cbn iota in H. unfold errorf in H.
-    destruct (l_pos l1 <? 0) eqn:E; [lia|]. inversion H; subst. cbn [l_out]. rewrite Ho.
+    destruct (base + l_pos l1 <? 0) eqn:E; [lia|]. inversion H; subst. cbn [l_out]. rewrite Ho.
     f_equal. unfold err_item. f_equal. lia.
   - assert (Heof : (r =? eof) = false) by (unfold eof; lia). rewrite Heof in H.
     destruct (r =? 42); [rewrite <- Ho; apply (IH true l1 l'); [lia | exact H]|].
@@ -44,15 +46,15 @@ Proof.
 Qed.
 
 Theorem string_error_at_end fuel : forall q l l',
-  0 <= l_pos l <= ilen -> string_loop inp ilen fuel q l = Ok (LDone, l') ->
-  l_out l' = err_item ilen e_string_eof :: l_out l.
+  0 <= l_pos l <= ilen -> string_loop inp ilen base fuel q l = Ok (LDone, l') ->
+  l_out l' = err_item (base + ilen) e_string_eof :: l_out l.
 Proof.
   induction fuel as [|f IH]; intros q l l' Hp H; [discriminate|].
   cbn [string_loop] in H.
   destruct (next_cases l ltac:(lia)) as (r & l1 & Hn & Ho & Hc). rewrite Hn in H. cbn [bind] in H.
   destruct Hc as [(Hr & Hpos & Hle) | (Hr & Hpos)].
   - subst r. change (eof =? eof) with true in H. cbn iota in H. unfold errorf in H.
-    destruct (l_pos l1 <? 0) eqn:E; [lia|]. inversion H; subst. cbn [l_out]. rewrite Ho.
+    destruct (base + l_pos l1 <? 0) eqn:E; [lia|]. inversion H; subst. cbn [l_out]. rewrite Ho.
     f_equal. unfold err_item. f_equal. lia.
   - assert (Heof : (r =? eof) = false) by (unfold eof; lia). rewrite Heof in H.
     destruct (r =? 92).
@@ -67,14 +69,14 @@ Qed.
 (* a tag that meets the end of the input *)
 Theorem unclosed_tag_at_end l :
   0 <= l_pos l -> ilen <= l_pos l ->
-  exists l', lex_inside_tag inp ilen l = Ok (LDone, l') /\ l_out l' = err_item (l_pos l) e_unclosed_tag :: l_out l.
+  exists l', lex_inside_tag inp ilen base l = Ok (LDone, l') /\ l_out l' = err_item (base + l_pos l) e_unclosed_tag :: l_out l.
 Proof.
   intros Hp Hle. unfold lex_inside_tag, next. apply Z.leb_le in Hle. rewrite Hle. cbn [bind].
   change (gen_isSpaceEOL eof) with false. cbn iota.
   change (eof =? 47) with false. cbn iota. cbn [bind].
   repeat (match goal with |- context [if ?c then _ else _] =>
             let v := eval vm_compute in c in change c with v; cbn iota end).
-  cbn [bind]. unfold errorf. cbn [l_pos]. destruct (l_pos l <? 0) eqn:E; [lia|].
+  cbn [bind]. unfold errorf. cbn [l_pos]. destruct (base + l_pos l <? 0) eqn:E; [lia|].
   eexists. split; reflexivity.
 Qed.
 End Eof.
